@@ -6,6 +6,7 @@ import (
 	"go/token"
 	"go/types"
 	"strings"
+	"verifcheck/internal/core"
 
 	"golang.org/x/tools/go/ssa"
 
@@ -15,9 +16,9 @@ import (
 
 func init() {
 	Register(&Spec{
-		ID: "C10",
+		ID:          "C10",
 		Explanation: "Decides structural necessary conditions of exactly-once shutdown of a capability: (R1) lock balance and the resolveHook hand-over in capability.go; (R2) clientHook.{refs,calls,resolvedHook} and Client.{h,released} are only touched with their mutex held; (R3) every close(h.done) is reached only under guards establishing refs == 0 and calls == 0, with the hook mutex held; (R4) ClientHook.Shutdown is called only from Client.Release and ClientPromise.Fulfill, after a receive from that hook's done channel, with no mutex held; (R5) startCall increments calls before handing out a hook, every caller runs finish on all paths, and SendCall/RecvCall test released and nil before the dynamic call; (R6) Fulfill moves the promise's refs to the resolved hook and WeakClient.AddRef refuses a hook with refs == 0. Does NOT decide exactly-once under interleavings (only that every access is serialised and every close conditioned) nor deadlock-freedom of user hooks.",
-		Run: runC10,
+		Run:         runC10,
 	})
 }
 
@@ -303,7 +304,25 @@ func ruleCallBracket(ctx *Ctx, rule string) {
 			"startCall can return a hook without having incremented calls: Shutdown may run during the call",
 			"every path to the return of a non-nil hook passes calls++")
 		decs := 0
-		for _, lu := range litChildren(a, u) {
+		// the finish function is a literal of startCall, or (since the reference
+		// tree) a helper or method that startCall hands out by value
+		cands := litChildren(a, u)
+		for _, hu := range a.Eng.Units {
+			if hu.Obj == nil || !core.IsNewFunc(hu.Obj) {
+				continue
+			}
+			used := false
+			ast.Inspect(u.Body, func(n ast.Node) bool {
+				if id, ok := n.(*ast.Ident); ok && info.Uses[id] == types.Object(hu.Obj) {
+					used = true
+				}
+				return !used
+			})
+			if used {
+				cands = append(cands, hu)
+			}
+		}
+		for _, lu := range cands {
 			linfo := lu.Pkg.TypesInfo
 			isDec := func(m ast.Node) bool {
 				s, ok := m.(*ast.IncDecStmt)
